@@ -13,10 +13,6 @@ StartOpts == {[dl |-> d, stop |-> KillNow, nb |-> TRUE, rin |-> 0, rout |-> 0, r
                term |-> 0, self |-> TRUE, prog |-> "/bin/c"] : d \in DlOpts, re \in {0, R_PIPE}}
              \cup {[dl |-> 0, stop |-> KillNow, nb |-> TRUE, rin |-> 0, rout |-> 0, rerr |-> 0, input |-> -1,
                     term |-> 0, self |-> TRUE, prog |-> "/bin/c", fork |-> TRUE]}
-\* a start that fails (with a deadline given) must leave nothing behind: the handle is started again without a deadline
-FailOpts == {[dl |-> 1, stop |-> KillNow, nb |-> TRUE, rin |-> 0, rout |-> 0, rerr |-> 0, input |-> -1,
-              term |-> 0, self |-> TRUE, prog |-> "/nonexistent"]}
-
 Srcs1 == {<<<<h, m>>>> : h \in {0, 1, 2}, m \in Masks}
 Srcs2 == {<<<<h, m>>, <<g, k>>>> : h \in {0, 1, 2}, g \in {0, 1, 2}, m \in Masks, k \in {EV_OUT + EV_EXIT}}
 Srcs3 == {<<<<h, EV_OUT + EV_EXIT>>, <<g, EV_OUT + EV_EXIT>>, <<f, EV_OUT + EV_EXIT>>>> : h \in {0, 1, 2}, g \in {0, 1, 2}, f \in {0, 1, 2}}
@@ -27,7 +23,7 @@ npolls == Cardinality({k \in 1..Len(hist) : hist[k].e = "call" /\ hist[k].fn = "
 Next ==
   \/ New(1) \/ (life[1] = "run" /\ now = 0 /\ New(2))     \* canonical set-up order (symmetry)
   \/ \E o \in StartOpts : life[1] = "ns" /\ Start(1, o)
-  \/ \E o \in StartOpts : life[2] = "ns" /\ Start(2, o)
+  \/ \E o \in StartOpts : life[2] = "ns" /\ ~IsFork(o) /\ Start(2, o)
   \/ npolls < MaxPolls /\ \E s \in Srcs, t \in Timeouts \cup {INF} : Poll(s, t)
   \/ \E h \in {1, 2}, t \in {0, DEADLINE} : life[h] = "run" /\ Wait(h, t)
   \/ \E h \in {1, 2} : life[h] = "run" /\ pend[h].o /\ Close(h, S_OUT)
